@@ -30,7 +30,7 @@ EvProbe ==
           [] OTHER -> TRUE)
 EvAuth ==
   /\ E.t = "auth" /\ UNCHANGED tls
-  /\ LET malformed == E.shape \in {"bare", "badb64", "cancel", "unknownmech"} IN
+  /\ LET malformed == E.shape \in {"bare", "badb64", "cancel", "unknownmech", "nonutf8"} IN
      bad' = bad
        \cup Flag("C08_AuthGate", /\ (E.insecure /\ ~E.tls /\ E.state = "ok" /\ ~malformed) => (E.code >= 500 /\ E.cb = 0)
                                  /\ (E.state # "ok") => (E.code = 503 /\ E.cb = 0))
